@@ -81,7 +81,11 @@ class C11(Check):
                 yield self.run(real, sd + ["obs", "adjmat %s %s %s" % (c, ",".join(vs) or ".", m)] + readback(3))
             # malformed: non-square, wrong side length
             for m, vs in [("10/0", "V0,V1"), ("1/11", "V0,V1"), ("11/11", "V0"), ("1", "V0,V1"), ("111/111", "V0,V1"),
-                          (".", "V0"), ("1", "."), ("10/01/11", "V0,V1,V2"), ("100/010", "V0,V1")]:
+                          (".", "V0"), ("1", "."), ("10/01/11", "V0,V1,V2"), ("100/010", "V0,V1"),
+                          # ragged rows whose lengths add up to n*n all the same
+                          ("1/111", "V0,V1"), ("111/1", "V0,V1"), ("0/000", "V0,V1"), ("000/1", "V0,V1"),
+                          ("11/111/1111", "V0,V1,V2"), ("1/1111/1111", "V0,V1,V2"), ("0000/0000/1", "V0,V1,V2"),
+                          ("1111/1/1111", "V0,V1,V0")]:
                 yield self.run(real, sd + ["obs", "adjmat D %s %s" % (vs, m)] + readback(3))
         # larger random inputs
         for _ in range(400 if quick else 3000):
@@ -96,7 +100,15 @@ class C11(Check):
             else:
                 n = rng.randint(0, min(nv, 5))
                 vs = [rng.randrange(nv) for _ in range(n)]
-                m = "/".join("".join(rng.choice("01") for _ in range(n)) for _ in range(n)) or "."
+                lens = [n] * n
+                if n >= 2 and rng.random() < 0.25:
+                    # ragged, possibly with the right total number of cells
+                    i, j = rng.sample(range(n), 2)
+                    d = rng.randint(1, n - 1)
+                    lens[i] -= d
+                    if rng.random() < 0.7:
+                        lens[j] += d
+                m = "/".join("".join(rng.choice("01") for _ in range(k)) for k in lens) or "."
                 lines += ["obs", "adjmat %s %s %s" % (rng.choice(CLASSES), ",".join("V%d" % v for v in vs) or ".", m)]
             yield self.run(real, lines + readback(nv))
 
